@@ -39,6 +39,8 @@ HARNESSES = [
     dict(name="fz_glyphs", src="props/glyphs.cpp", variant="asan_smallglyph", kind="fuzz",
          cflags=["-DVF_FUZZ", '-DVF_FUZZ_PROP="cache"', "-DPIXMAN_VERIF_GLYPH_HIGH_WATER=8", "-DPIXMAN_VERIF_GLYPH_LOW_WATER=4"]),
     dict(name="fz_filter", src="props/filter.cpp", variant="asan", kind="fuzz", cflags=["-DVF_FUZZ", '-DVF_FUZZ_PROP="filter"']),
+    dict(name="lifetime_small", src="props/lifetime.cpp", variant="asan_smallglyph",
+         cflags=["-DPIXMAN_VERIF_GLYPH_HIGH_WATER=8", "-DPIXMAN_VERIF_GLYPH_LOW_WATER=4"]),
     dict(name="threads", src="props/threads.cpp", variant="plain"),
     dict(name="threads_tsan", src="props/threads.cpp", variant="tsan"),
 ]
@@ -444,7 +446,10 @@ CHECKS["C20"] = dict(
           "alive while attached and die with their owner; refused chains do not extend lifetimes; after draining the library's "
           "live-allocation counter is back to its starting value; built with ASan (use after free, double free) and LSan. "
           "Non-trivial = a map is unreferenced by the user before its owner, or an owned parameter buffer is replaced twice."),
-    jobs=[dict(harness="lifetime_asan", prop="lifetime", cases=T(15000, 300000), procs=T(8, 14))],
+    jobs=[dict(harness="lifetime_asan", prop="lifetime", cases=T(15000, 300000), procs=T(8, 12)),
+          # the same histories against the 16-slot glyph table of hook 3: every slot of the table, the last one included, holds
+          # a glyph of a pool image at some point before the cache is destroyed
+          dict(harness="lifetime_small", prop="lifetime", cases=T(8000, 150000), procs=T(3, 4))],
     floor=T(80000, 2000000), nt_floor=T(15000, 300000),
     assumptions=["images are never touched after the model says their last reference is gone (that would be a caller error)",
                  "the live-allocation counter covers allocations made by the library (compile-time rename of malloc/calloc/realloc/free in the asan variant)"],
